@@ -37,12 +37,43 @@ func foldOpts() []gotype.FoldOption {
 // a user would: as an interface{} holding the value.
 func foldTo(rv reflect.Value, vis structform.Visitor) Outcome {
 	return guard(func() error {
+		// the registered folder is only passed when the type needs it: most
+		// users call Fold without options, and an iterator with options may take
+		// other code paths than one without
+		if !usesRegT(rv.Type(), 0, map[reflect.Type]bool{}) {
+			return gotype.Fold(rv.Interface(), vis)
+		}
 		it, err := gotype.NewIterator(vis, foldOpts()...)
 		if err != nil {
 			return err
 		}
 		return it.Fold(rv.Interface())
 	})
+}
+
+var regTType = reflect.TypeOf(gomodel.RegT{})
+
+func usesRegT(t reflect.Type, depth int, seen map[reflect.Type]bool) bool {
+	if depth > 12 || seen[t] {
+		return false
+	}
+	seen[t] = true
+	if t == regTType {
+		return true
+	}
+	switch t.Kind() {
+	case reflect.Ptr, reflect.Slice, reflect.Array, reflect.Map:
+		return usesRegT(t.Elem(), depth+1, seen)
+	case reflect.Interface:
+		return true // the dynamic value may hold anything
+	case reflect.Struct:
+		for i := 0; i < t.NumField(); i++ {
+			if usesRegT(t.Field(i).Type, depth+1, seen) {
+				return true
+			}
+		}
+	}
+	return false
 }
 
 func typeHasActiveTag(t reflect.Type, depth int) bool {
